@@ -25,7 +25,8 @@ var (
 
 type Nodis struct {
 	store             *store
-	listeners         []*listener.Listener
+	listenersMu       sync.RWMutex
+	listeners         []*listener.Listener // a removed watcher leaves a nil slot: ids stay valid
 	blockingKeysMutex sync.RWMutex
 	blockingKeys      btree.Map[string, *list.LinkedListG[chan string]] // blocking keys
 	options           *Options
@@ -90,29 +91,42 @@ func (n *Nodis) Clear() {
 	n.store.watchMu.Unlock()
 }
 
+// notify hands the change records of a command to the key watchers. It runs inside the command's
+// transaction, while the key is still locked, and delivers synchronously: the records of one key
+// reach a watcher in the order in which the commands took effect.
 func (n *Nodis) notify(f func() []patch.Op) {
-	if len(n.listeners) == 0 {
-		return
-	}
-	go func() {
-		for _, w := range n.listeners {
-			for _, op := range f() {
-				if w.Matched(op.Data.GetKey()) {
-					w.Push(op)
-				}
+	n.listenersMu.RLock()
+	defer n.listenersMu.RUnlock()
+	var ops []patch.Op
+	for _, w := range n.listeners {
+		if w == nil {
+			continue
+		}
+		if ops == nil {
+			ops = f()
+		}
+		for _, op := range ops {
+			if w.Matched(op.Data.GetKey()) {
+				w.Push(op)
 			}
 		}
-	}()
+	}
 }
 
 func (n *Nodis) WatchKey(pattern []string, fn func(op patch.Op)) int {
 	w := listener.New(pattern, fn)
+	n.listenersMu.Lock()
+	defer n.listenersMu.Unlock()
 	n.listeners = append(n.listeners, w)
 	return len(n.listeners) - 1
 }
 
 func (n *Nodis) UnWatchKey(id int) {
-	n.listeners = append(n.listeners[:id], n.listeners[id+1:]...)
+	n.listenersMu.Lock()
+	defer n.listenersMu.Unlock()
+	if id >= 0 && id < len(n.listeners) {
+		n.listeners[id] = nil
+	}
 }
 
 func (n *Nodis) ApplyPatch(ops ...patch.Op) error {
